@@ -476,6 +476,21 @@ class Alias:
                 kwn = head[3] if len(head) > 3 else ()
                 npos = len(args) - len(kwn)
                 return self.summaries[fname](self, ctx, list(args[:npos]), dict(zip(kwn, args[npos:])))
+            if fname.split(".")[0] in ("Field", "Mesh", "Region", "MplField", "FieldRotator", "Line") and "." in fname:
+                meth = fname.split(".", 1)[1]
+                kwn = head[3] if len(head) > 3 else ()
+                if meth == "__call__":
+                    return {f"{r}._array" for r in self.roots(ctx, args[0])}
+                if "inplace" in kwn:
+                    flag = args[len(args) - len(kwn) + kwn.index("inplace")]
+                    fh = ctx.head_of(flag)
+                    if not (fh and fh[0] == "const" and fh[1] is False):
+                        return self.roots(ctx, args[0])
+                # every other method of the repository's classes returns a newly constructed object or a scalar
+                return {f"alloc:{a}"} if self.allocs else set()
+            callee = self._repo_function(fname)
+            if callee is not None:
+                return self._apply_summary(ctx, callee, head, args)
             if fname in VIEW_FUNCS:
                 return self.roots(ctx, args[0]) if args else set()
             if fname in FRESH_FUNCS or fname == "astype":
@@ -493,6 +508,52 @@ class Alias:
                 return self.roots(ctx, args[0])
             raise AnalysisError(f"alias table: unknown callable {fname}")
         raise AnalysisError(f"alias: unhandled atom kind {k}")
+
+    _MODULE_ALIASES = {"plot_util": "plotting.util", "dfu": "util.util"}
+
+    def _repo_function(self, fname):
+        if fname.startswith("fn:"):
+            q = fname[3:]
+            return q if q in self.repo.funcs else None
+        if "." in fname:
+            mod, name = fname.rsplit(".", 1)
+            if mod in self._MODULE_ALIASES:
+                q = f"{self._MODULE_ALIASES[mod]}.{name}"
+                return q if q in self.repo.funcs else None
+        return None
+
+    def _apply_summary(self, ctx, qual, head, args):
+        """roots of a call to a repository function = roots of the actual arguments whose parameters its returns may alias"""
+        if not hasattr(self, "_fsum"):
+            self._fsum = {}
+        if qual not in self._fsum:
+            self._fsum[qual] = None       # recursion guard: assume fresh while computing
+            w = FV(self.repo, qual)
+            ps = set()
+            for r in w.returns():
+                if r.value is None:
+                    continue
+                t = alias_term(w, r.value, at=r)
+                for x in self.roots(w.ctx, t):
+                    if x.startswith("param:"):
+                        ps.add(x[6:].split(".")[0])
+            self._fsum[qual] = ps
+        ps = self._fsum[qual] or set()
+        if not ps:
+            return set()
+        fi = self.repo.func(qual)
+        a = fi.node.args
+        pn = [x.arg for x in a.posonlyargs + a.args]
+        kwn = head[3] if len(head) > 3 else ()
+        npos = len(args) - len(kwn)
+        out = set()
+        for i, x in enumerate(args[:npos]):
+            if i < len(pn) and pn[i] in ps:
+                out |= self.roots(ctx, x)
+        for n_, x in zip(kwn, args[npos:]):
+            if n_ in ps:
+                out |= self.roots(ctx, x)
+        return out
 
     def _basic_index(self, ctx, idx):
         """False only for indices that are definitely advanced (Boolean masks, index arrays, lists):
